@@ -219,3 +219,10 @@ also("C05", "The per-step link map may be obtained through such a lookup helper;
 also("C04", "Signer and signed bytes may be handed back unchanged by a transparent helper that was given the key parameter and the receiver.")
 also("C01", "Verifier and verified bytes may be handed back unchanged by a transparent helper that was given the key parameter and the receiver.")
 also("C20", "The three operations of sign may sit in unexported helpers whose error is what sign returns (parameters mapped to arguments); key and key-layout may load through an unexported (Key, error) loader helper.")
+also("C13", "The ToSlash re-keying loop and the exclusion / directory tests of the walk callback may sit in unexported helpers (a skip predicate answers false with a nil error only where GitIgnore and IsDir are false).")
+also("C14", "The by-product map may be assembled by a helper that is handed the values; the exit status may be handed back by an unexported (int, bool) helper whose returns are walked.")
+also("C09", "RunCommand may sit behind a run-if-any helper that returns its results as they are; the run directory may be checked by a helper whose error refuses; the wrapper kind may be handed back by a prologue helper.")
+also("C07", "The certificate under test may be parsed by an unexported helper that was given the key.")
+also("C01", "The selection by key id may sit in a helper that is handed (receiver.Signatures, keyID) and whose results are returned as they are.")
+also("C15", "Key material validation is also recognised as one validateKeyVal call after a switch that only sorts out unknown key types, with the PEM halves parsed and matched in helpers (matcher possibly passed as a function value) and the expected type chosen per case into one variable; a range over a fixed-size array is a bound idiom.")
+also("C10", "A3.3 accepts an unordered list that an unexported helper only returns when every call site hands it straight to NewSet.")
